@@ -50,14 +50,16 @@ const emitScript = `#!/bin/bash
 # then a last burst of 700 bytes
 pat=$1; shift
 off=0
+# a talker handles the interrupt from its first moment on: the last burst, then exit (bash runs
+# the handler when the pipeline in progress has finished, so nothing is written after the exit)
+case " $* " in *" t "*) trap 'tail -c +$((off+1)) "$pat" | head -c 700; exit 130' INT TERM;; esac
 for st in "$@"; do
   case $st in
     w*) n=${st#w}; tail -c +$((off+1)) "$pat" | head -c "$n"; off=$((off+n));;
     s*) ms=${st#s}; sleep $(printf '%d.%03d' $((ms/1000)) $((ms%1000)));;
     x*) exit ${st#x};;
     h) trap 'exit 130' INT TERM; while :; do sleep 0.05; done;;
-    t) trap 'tail -c +$((off+1)) "$pat" | head -c 700; exit 130' INT TERM
-       while :; do tail -c +$((off+1)) "$pat" | head -c 64; off=$((off+64)); sleep 0.05; done;;
+    t) while :; do tail -c +$((off+1)) "$pat" | head -c 64; off=$((off+64)); sleep 0.05; done;;
   esac
 done
 exit 0
